@@ -8,7 +8,9 @@ from props import gencommon as gc
 RULE = ("GEN-HASH: per variant, inputs at every length threshold (0..6, 9-11, 17-19, 49-51, 127-129, 255-257, ...) and "
         "larger ones in seven textures (incl. low-entropy data that empties buckets), each hashed under ALL 32 option "
         "settings; implementation vs model, and on the implementation alone: length error iff the published classification "
-        "says so, o <= o' (same Q mode) preserves an Ok result, allow-quarter implies allow-half.  LIMITS: "
+        "says so, o <= o' (same Q mode) preserves an Ok result, allow-quarter implies allow-half.  TOO-LARGE: generator states "
+        "with MAX-1 .. 2^32 bytes seen (injected through the hook) finalized under all 32 settings: TooLargeInput exactly above MAX, "
+        "whatever is waived.  LIMITS: "
         "DataLengthValidity::new / is_err / is_err_on and Generator::{MIN,MIN_CONSERVATIVE,MAX} for all interesting n.  "
         "Non-trivial = the input reaches finalization past the length gate; distinct by case text.")
 
@@ -22,6 +24,31 @@ def run(ctx):
     rows = ctx.correspond("GEN-HASH", cases, hb, db, flags=fl, coq_sample=6,
                           nontrivial=lambda c, i: not ("TooSmallInput" in i or "TooLargeInput" in i))
     gc.check_options_properties(ctx, [r[0] for r in rows], [r[1] for r in rows])
+    # too large is never waivable: generator states just above the maximum (entered through the hook), all 32 option settings
+    rng = ctx.rng.fork("toolarge")
+    big = []
+    for v in VNAMES:
+        ck = suites.VARIANTS[v][0]
+        for total in (gc.MAX + 1, gc.MAX + 2, gc.MAX + 1000, 2 ** 32 - 1, 2 ** 32, gc.MAX, gc.MAX - 1):
+            bk = [1000 + rng.below(5000) for _ in range(256)]
+            ops = " ".join("f %d" % o for o in range(32))
+            # raw state: len counts the bytes after the first four; saturates at 2^32-4
+            big.append("hist %s inject %s %d %s %s 4 %s" % (v, hx(suites.le32s(bk)), min(total - 4, 2 ** 32 - 4), hx(rng.bytes(ck)),
+                                                             hx(rng.bytes(4)), ops))
+
+    def big_pred(c, i, m):
+        p = c.split(" ")
+        total = int(p[4]) + 4
+        outs = i.split(" | ")
+        if i.startswith("PANIC") or i.startswith("CRASH") or len(outs) != 32:
+            return "finalize did not return normally on a generator that has seen %d bytes" % total
+        for o, r in enumerate(outs):
+            if total > gc.MAX and r != "err TooLargeInput":
+                return "%d bytes fed (> %d): option setting %d gives `%s`; too large is never waivable" % (total, gc.MAX, o, r[:60])
+            if total <= gc.MAX and r == "err TooLargeInput":
+                return "%d bytes fed (<= %d) reported as too large under option setting %d" % (total, gc.MAX, o)
+        return None
+    ctx.correspond("TOO-LARGE", big, hb, db, flags=fl, predicate=big_pred, coq_sample=2, nontrivial=lambda c, i: True)
     lim = []
     for v in VNAMES:
         lim.append("limits %s" % v)
